@@ -284,7 +284,11 @@ def run_history(cid, hop, rows):
         pass
 
 
-def make_two_runs(hop, op):
+CID_TEXT_VALUE_COUNT = ("d,format,delimited\nf,k,,,,Choice,\"a,b\"\nf,v,,X,...1,Text,\n"
+                        "c,uniq,IsUnique,k\nc,dist,DistinctCount,v <= 1\n")
+
+
+def make_two_runs(hop, op, cid_text=None, value_alphabet=None):
     """a REAL earlier run (symbolic data) followed by the run under test (symbolic data): no knowledge of how checks
     represent their state is needed -- complements the inductive step, which only covers state the harness knows of"""
 
@@ -292,10 +296,10 @@ def make_two_runs(hop, op):
         hrows = [[hk[0], ""], [hk[1], ""]]
         rows = [[k[0], v[0]], [k[1], v[1]]]
         with patched(rf.smart_repr(), *rf.srows_patches()):
-            fresh = rf.build_cid(CID_TEXT)
+            fresh = rf.build_cid(cid_text or CID_TEXT)
             rf.set_header(fresh, header)
             expected = operate(fresh, op, rows)
-            used = rf.build_cid(CID_TEXT)
+            used = rf.build_cid(cid_text or CID_TEXT)
             run_history(used, hop, hrows)
             rf.set_header(used, header)
             got = operate(used, op, rows)
@@ -309,6 +313,9 @@ def make_two_runs(hop, op):
             for x in (h0, h1, k0, k1):
                 assume(len(x) == 1 and 97 <= ord(x) <= 99)
             assume(len(v0) <= 1 and len(v1) <= 1)
+            if value_alphabet is not None:
+                for v in (v0, v1):
+                    assume(len(v) == 1 and value_alphabet[0] <= ord(v) <= value_alphabet[1])
             ok, cls, _, _, _, _ = go([h0, h1], [k0, k1], [v0, v1], header)
             return ok, cls
 
@@ -408,6 +415,14 @@ def build(tier, seed):
                              "a real earlier run (%s, 2 rows, keys a/b/c) followed by %s on 2 rows (keys a/b/c, value len<=1), "
                              "header 0..2, all symbolic" % (hop, op), budget_s=900 if tier == "quick" else 3000,
                              per_path_timeout=120, replay=rp, functions=FUNCS, stubs=("S-ROWS", "S-FMT")))
+    # the order in which the checks of a CID judge a row is the order of declaration in every run (a duplicate
+    # row never reaches the later-declared DistinctCount of another field)
+    for hop, op in (("rows-yield", "rows-yield"), ("writer", "rows-yield")) + ((("rows-raise", "validate"), ("rows-yield", "writer")) if tier == "thorough" else ()):
+        mk, rp = make_two_runs(hop, op, CID_TEXT_VALUE_COUNT, (120, 121))
+        queries.append(Query("C08/two-runs-check-order/%s/then/%s" % (hop, op), "two-runs", mk,
+                             "IsUnique k declared before DistinctCount v <= 1: a real earlier run (%s) then %s on 2 rows (keys a/b/c, "
+                             "values x/y), header 0..2, all symbolic" % (hop, op), budget_s=900, per_path_timeout=120, replay=rp,
+                             functions=FUNCS, stubs=("S-ROWS", "S-FMT")))
     for hop in FIXED_HISTORY:
         ml = 6 if tier == "quick" else 8
         mk, rp = make_fixed_two_runs(hop, ml)
